@@ -764,6 +764,11 @@ def run(ctx):
     rule_TS(ctx, owners=["tree.Tree", "tree_node.TreeNode", "visitors.PostOrderNodeUpdater", "visitors.PreOrderNodeRelabeller"])
     ctx._own_rules = set(ctx.rule_min)
     imported(ctx, C07.rule_V2)
+    # the incrementally maintained vectors come out of the memoised recursion: a cache that returns another
+    # child multiset's result, or whose value was written through, differs from a from-scratch rebuild
+    from . import _premises
+
+    _premises.caches(ctx)
 
 
 # Self-test catalogue: one textual edit each, applied to a scratch copy (see selftest.py).
